@@ -95,4 +95,14 @@ CHECKS["C01"] = {
     "parts": [{"bin": "C01_tasks"}],
 }
 
+CHECKS["C05"] = {
+    "registered": True,
+    "engine": "pmc-rt",
+    "technique": "stateless preemption-bounded exhaustive schedule enumeration of runtime life-cycle histories (start/submit/wait/finalize/stop/restart/suspend/resume, external submitter) on the real runtime with a completion ledger read right after each call returns",
+    "level_text": "Every schedule within the deviation bound of the life-cycle histories is executed on the real runtime: wait() and stop() must not return before every task submitted earlier (and every task those spawn) has finished, stop() must not return before finalize() and must return the entry function's result, a second incarnation with a different worker count and policy runs its own work completely, no body runs between suspend() returning and resume(), and work queued in that window completes after resume; calls that never return are stuck executions.",
+    "level_note": "Sequentially consistent interleavings only; 1-2 workers, 4 policies; choice points at store/rmw/cas sites of the activity counter, thread_manager, scheduled_thread_pool, scheduler_base suspend/resume, runtime wait/stop/finalize and create/destroy_thread (F-site); all pthread blocking points are scheduling decisions.",
+    "rule": "pmc-rt: life-cycle histories x policies (data choices) x all schedules within the deviation bound",
+    "parts": [{"bin": "C05_lifecycle"}],
+}
+
 PENDING = {}
